@@ -141,13 +141,29 @@ def arg_of(call: ast.Call, pos: int, name: Optional[str] = None) -> Optional[ast
 
 
 # --------------------------------------------------------------------------- substitution
+def clone(node):
+    """Deep copy of an AST that does not follow the _parent back pointers set by the model."""
+    if isinstance(node, list):
+        return [clone(x) for x in node]
+    if not isinstance(node, ast.AST):
+        return node
+    new = node.__class__()
+    for f in node._fields:
+        if hasattr(node, f):
+            setattr(new, f, clone(getattr(node, f)))
+    for a in ("lineno", "col_offset", "end_lineno", "end_col_offset"):
+        if hasattr(node, a):
+            setattr(new, a, getattr(node, a))
+    return new
+
+
 class _Subst(ast.NodeTransformer):
     def __init__(self, mapping: Dict[str, ast.AST]):
         self.mapping = mapping
 
     def visit_Name(self, node):
         if isinstance(node.ctx, ast.Load) and node.id in self.mapping:
-            return copy.deepcopy(self.mapping[node.id])
+            return clone(self.mapping[node.id])
         return node
 
     def visit_Lambda(self, node):
@@ -159,7 +175,7 @@ class _Subst(ast.NodeTransformer):
 
 def subst(node: ast.AST, mapping: Dict[str, ast.AST]) -> ast.AST:
     """Copy of `node` with loaded names replaced by expressions."""
-    return ast.fix_missing_locations(_Subst(mapping).visit(copy.deepcopy(node)))
+    return ast.fix_missing_locations(_Subst(mapping).visit(clone(node)))
 
 
 def apply_lambda(lam: ast.AST, args: Sequence[ast.AST]) -> Optional[ast.AST]:
@@ -202,6 +218,8 @@ def single_assignments(fn: ast.AST) -> Dict[str, ast.AST]:
                         if isinstance(sub, ast.Name):
                             targets.append((sub.id, None))
         for name, val in targets:
+            if val is not None and name in values and counts.get(name) == 1 and ast.dump(values[name]) == ast.dump(val):
+                continue  # the same definition repeated in another arm
             counts[name] = counts.get(name, 0) + 1
             if val is not None:
                 values[name] = val
